@@ -220,7 +220,61 @@ pub fn meta_image(seed: u64) -> Vec<u8> {
     for _ in 0..edits {
         let nodes = walk(&img);
         let Some(mi) = nodes.iter().position(|n| n.depth == 0 && n.is(b"moov")) else { break };
-        match r.below(6) {
+        match r.below(9) {
+            6 => {
+                // edit list inside a trak (version 0 or 1, 0-3 entries)
+                let Some(ti) = nodes.iter().position(|n| n.is(b"trak")) else { continue };
+                let v1 = r.chance(1, 2);
+                let n = r.below(4) as u32;
+                let mut b = Vec::new();
+                b.extend_from_slice(&n.to_be_bytes());
+                for _ in 0..n {
+                    if v1 {
+                        b.extend_from_slice(&r.next_u64().to_be_bytes());
+                        b.extend_from_slice(&(r.next_u64() >> 1).to_be_bytes());
+                    } else {
+                        b.extend_from_slice(&r.next_u32().to_be_bytes());
+                        b.extend_from_slice(&(r.next_u32() >> 1).to_be_bytes());
+                    }
+                    b.extend_from_slice(&1u16.to_be_bytes());
+                    b.extend_from_slice(&0u16.to_be_bytes());
+                }
+                let edts = bx(b"edts", &full(b"elst", v1 as u8, 0, &b));
+                let at = nodes[ti].end();
+                splice(&mut img, &nodes, Some(ti), at, 0, &edts);
+            }
+            7 => {
+                // hvcC with parameter-set arrays (the muxer writes none)
+                let Some(hi) = nodes.iter().position(|n| n.is(b"hvcC")) else { continue };
+                let h = &nodes[hi];
+                if h.size < h.hdr + 23 {
+                    continue;
+                }
+                let mut body = img[h.body()..h.body() + 22].to_vec();
+                let narr = 1 + r.below(3) as u8;
+                body.push(narr);
+                for a in 0..narr {
+                    body.push(0x80 | (32 + a));
+                    let nn = 1 + r.below(2) as u16;
+                    body.extend_from_slice(&nn.to_be_bytes());
+                    for _ in 0..nn {
+                        let l = r.below(24) as u16;
+                        body.extend_from_slice(&l.to_be_bytes());
+                        let mut d = vec![0u8; l as usize];
+                        r.fill(&mut d);
+                        body.extend_from_slice(&d);
+                    }
+                }
+                let nb = bx(b"hvcC", &body);
+                let (st, sz) = (h.start, h.size);
+                splice(&mut img, &nodes, h.parent, st, sz, &nb);
+            }
+            8 => {
+                // an extra trak-level 'tref' / moov-level 'iods' style unknown boxes
+                let unk = bx(if r.chance(1, 2) { b"iods" } else { b"tref" }, &vec![0u8; 4 + r.below(12) as usize]);
+                let at = nodes[mi].end();
+                splice(&mut img, &nodes, Some(mi), at, 0, &unk);
+            }
             0 | 1 => {
                 let udta = bx(b"udta", &meta_box(&mut r));
                 let at = nodes[mi].end();
@@ -340,6 +394,14 @@ pub fn frag_image(seed: u64) -> (Vec<u8>, usize) {
         let mut tracks: Vec<u32> = (1..=ntracks).filter(|_| r.chance(3, 4)).collect();
         if tracks.is_empty() {
             tracks.push(1 + r.below(ntracks as u64) as u32);
+        }
+        // several track fragments of the same track inside one movie fragment are legal
+        if r.chance(1, 4) {
+            let again = tracks[r.usize_below(tracks.len())];
+            tracks.push(again);
+            if r.chance(1, 3) {
+                tracks.push(again);
+            }
         }
         struct Run {
             track: u32,
@@ -526,5 +588,70 @@ pub fn gen_spec(r: &mut Rng) -> SeedSpec {
             let n = mux_call_count(&small_scenario(seed));
             SeedSpec::Crash { seed, k: r.below(n.max(1)) }
         }
+    }
+}
+
+#[cfg(test)]
+mod tests {
+    use super::*;
+    use std::io::Cursor;
+
+    fn all_samples(img: &[u8]) -> Option<Vec<(u32, u32, Vec<u8>, u64, u32, i32)>> {
+        let mut r = mp4::Mp4Reader::read_header(Cursor::new(img.to_vec()), img.len() as u64).ok()?;
+        let mut ids: Vec<u32> = r.tracks().keys().copied().collect();
+        ids.sort_unstable();
+        let mut v = Vec::new();
+        for t in ids {
+            let n = r.sample_count(t).ok()?;
+            for k in 1..=n {
+                let s = r.read_sample(t, k).ok()??;
+                v.push((t, k, s.bytes.to_vec(), s.start_time, s.duration, s.rendering_offset));
+            }
+        }
+        Some(v)
+    }
+
+    /// The packager only re-arranges / extends muxer output: every variant must open and give
+    /// exactly the samples of the plain muxer output.
+    #[test]
+    fn packager_variants_read_back_like_the_original() {
+        let mut reloc_ok = 0;
+        for seed in 0..400u64 {
+            let base = mux_bytes(&small_scenario(seed));
+            let want = all_samples(&base).expect("muxer output opens");
+            if let Some(rel) = relocate_moov_first(&base) {
+                assert_eq!(all_samples(&rel).expect("relocated opens"), want, "reloc seed {seed}");
+                reloc_ok += 1;
+            }
+            let meta = meta_image(seed);
+            assert_eq!(all_samples(&meta).expect("meta variant opens"), want, "meta seed {seed}");
+        }
+        assert!(reloc_ok > 300);
+    }
+
+    #[test]
+    fn fragment_images_open_both_ways() {
+        let mut with_samples = 0;
+        for seed in 0..400u64 {
+            let (img, l) = frag_image(seed);
+            let r = mp4::Mp4Reader::read_header(Cursor::new(img.clone()), img.len() as u64).expect("fragmented stream opens");
+            assert!(r.is_fragmented());
+            let init = mp4::Mp4Reader::read_header(Cursor::new(img[..l].to_vec()), l as u64).expect("init opens");
+            let seg = img[l..].to_vec();
+            let n = seg.len() as u64;
+            let mut f = init.read_fragment_header(Cursor::new(seg), n).expect("segment opens against init");
+            let mut ids: Vec<u32> = f.tracks().keys().copied().collect();
+            ids.sort_unstable();
+            for t in ids {
+                if let Ok(c) = f.sample_count(t) {
+                    for k in 1..=c {
+                        if let Ok(Some(_)) = f.read_sample(t, k) {
+                            with_samples += 1;
+                        }
+                    }
+                }
+            }
+        }
+        assert!(with_samples > 500, "only {with_samples} samples read from fragment images");
     }
 }
